@@ -128,7 +128,7 @@ def compare(s1, s2, ext, frame):
                 diffs.append((f, getattr(s1, f), getattr(s2, f)))
     r1, r2 = s1.ram(-1), s2.ram(-1)
     if r1 != r2:
-        bad = [i for i in range(len(r1)) if r1[i] != r2[i]][:4]
+        bad = [i for i in range(len(r1)) if r1[i] != r2[i]][:16]
         diffs.append(('ram', [(i, r1[i]) for i in bad], [(i, r2[i]) for i in bad]))
     return diffs
 
@@ -308,7 +308,11 @@ def memptr_flags_only(d, log):
     if not ('BIT' in log and '(HL)' in log):
         return False
     for name, v1, v2 in d:
-        if name != 'f' or (v1 ^ v2) & ~0x28:
+        if name == 'ram':
+            # F pushed on the stack (PUSH AF, or an interrupt routine that saves AF) carries the two bits into RAM
+            if len(v1) != len(v2) or any(a1 != a2 or (b1 ^ b2) & ~0x28 for (a1, b1), (a2, b2) in zip(v1, v2)):
+                return False
+        elif name != 'f' or (v1 ^ v2) & ~0x28:
             return False
     return True
 
